@@ -123,7 +123,10 @@ def close(expected, got, bt):
         ef = float(expected)
         tol = 2e-6 if bt == "f32" else 1e-12
         return abs(got - ef) <= tol * max(1.0, abs(ef))
-    return False
+    # integer precisions: the value is cast (truncated) when stored
+    import math
+
+    return math.trunc(expected) == got
 
 
 def run_instr(job):
@@ -140,7 +143,10 @@ def run_instr(job):
         return out
     extra_flags = ["-mavx512f", "-mavx512bw", "-mavx512vl", "-mavx512dq"] if "_mm512" in cins or "AVX512" in str(instr) else []
     ns = None
-    for off in (0, 1, 2):
+    has_dram = any(a.type.is_numeric() and a.type.is_tensor_or_window() and (a.mem is None or a.mem.name() == "DRAM")
+                   for a in instr._loopir_proc.args)
+    offsets = (0, 1, 2) if tier != "quick" else ((0, 2) if has_dram else (0,))
+    for off in offsets:
         try:
             src, entry = build_wrapper(nm, instr, off)
         except ValueError as ex:
@@ -162,7 +168,7 @@ def run_instr(job):
         out["wrappers"] += 1
         ir = w._loopir_proc
         vals = list(inputs.control_domain(ir, sizes=tuple(range(1, 17)), idxs=(0, 1), max_vals=20))
-        for pattern in (0, 1):
+        for pattern in ((0, 1) if (off == 0 or tier != "quick") else (0,)):
             keep, exp = [], []
             for v in vals:
                 try:
